@@ -3,11 +3,12 @@ import PsyVerif.Model.Copy
 open Proto C15
 
 /-! Driver of the C15 model.  One line =
-`(mode (nsym nnode) ((name (dep ...)) ...) (tree ...) r (edit ...))` with
+`(mode (nsym nnode nif) ((name (dep ...) iface fresh) ...) (access ...) (tree ...) r (edit ...))` with
 `tree = (id kind sym tsym table (child ...))`, `sym`/`tsym` = `-1` for None, `table` = `-` or a list
 of symbol ids; `mode` = `deployed`, `fixed` or `pinned`.  The answer is the world after
 `copy r` and the world after the edits, each dumped as
-`((nsym nnode) ((name (dep ...)) ...) (tree ...))`, followed by the views-equal flags. -/
+`((nsym nnode nif) ((name (dep ...) iface fresh) ...) (access ...) (tree ...))`, followed by two flags:
+view of the copy = view of the original subtree at copy time, views of the original trees kept. -/
 
 def optOf (s : Sexp) : Option Nat :=
   match s.int? with
@@ -27,24 +28,29 @@ partial def mkForest : List Sexp → Forest
       .cons ⟨i.nat?.getD 0, k.nat?.getD 0, optOf s, optOf ts, table⟩ (mkForest kids.items) (mkForest rest)
     | _ => mkForest rest
 
-def mkWorld (hdr syms trees : Sexp) : World :=
-  let recs : Array (Nat × List Nat) := (syms.items.map fun s =>
+def mkWorld (hdr syms acc trees : Sexp) : World :=
+  let recs : Array (Nat × List Nat × Nat × Bool) := (syms.items.map fun s =>
     match s.items with
-    | [n, d] => (n.nat?.getD 0, d.natList)
-    | _ => (0, [])).toArray
-  let (ns, nn) := match hdr.items with
-    | [a, b] => (a.nat?.getD 0, b.nat?.getD 0)
-    | _ => (0, 0)
-  { name := fun i => (recs.getD i (0, [])).1
-    deps := fun i => (recs.getD i (0, [])).2
-    nsym := ns, nnode := nn
+    | [n, d, i, f] => (n.nat?.getD 0, d.natList, i.nat?.getD 0, f.nat?.getD 0 != 0)
+    | _ => (0, [], 0, false)).toArray
+  let accs : Array Nat := acc.natList.toArray
+  let (ns, nn, ni) := match hdr.items with
+    | [a, b, c] => (a.nat?.getD 0, b.nat?.getD 0, c.nat?.getD 0)
+    | _ => (0, 0, 0)
+  { name := fun i => (recs.getD i (0, [], 0, false)).1
+    deps := fun i => (recs.getD i (0, [], 0, false)).2.1
+    iface := fun i => (recs.getD i (0, [], 0, false)).2.2.1
+    freshIface := fun i => (recs.getD i (0, [], 0, false)).2.2.2
+    access := fun i => accs.getD i 0
+    nsym := ns, nnode := nn, nif := ni
     trees := trees.items.map fun t => mkForest [t] }
 
 def parseEdit (s : Sexp) : Option Edit :=
   match s.items with
   | [.atom "rename", p, a, n] => do pure (.rename (← p.nat?) (← a.nat?) (← n.nat?))
   | [.atom "setdeps", a, ds] => do pure (.setDeps (← a.nat?) ds.natList)
-  | [.atom "addsym", p, n, ds] => do pure (.addSym (← p.nat?) (← n.nat?) ds.natList)
+  | [.atom "addsym", p, n, ds, f] => do pure (.addSym (← p.nat?) (← n.nat?) ds.natList ((← f.nat?) != 0))
+  | [.atom "setaccess", i, v] => do pure (.setAccess (← i.nat?) (← v.nat?))
   | [.atom "removesym", p, a] => do pure (.removeSym (← p.nat?) (← a.nat?))
   | [.atom "setsym", p, a] => do pure (.setSym (← p.nat?) (optOf a))
   | [.atom "settsym", p, a] => do pure (.setTSym (← p.nat?) (optOf a))
@@ -64,24 +70,31 @@ partial def showForest : Forest → List String
       " ".intercalate (showForest k) ++ "))") :: showForest r
 
 @[noinline] def showWorld (W : World) : String :=
-  "((" ++ toString W.nsym ++ " " ++ toString W.nnode ++ ") " ++
-    showList (fun s => "(" ++ toString (W.name s) ++ " " ++ showList toString (W.deps s) ++ ")") (List.range W.nsym) ++
+  "((" ++ toString W.nsym ++ " " ++ toString W.nnode ++ " " ++ toString W.nif ++ ") " ++
+    showList (fun s => "(" ++ toString (W.name s) ++ " " ++ showList toString (W.deps s) ++ " " ++
+      toString (W.iface s) ++ " " ++ (if W.freshIface s then "1" else "0") ++ ")") (List.range W.nsym) ++ " " ++
+    showList (fun i => toString (W.access i)) (List.range W.nif) ++
     " (" ++ " ".intercalate (W.trees.flatMap showForest) ++ "))"
 
 /-- freeze the symbol store into arrays so that later queries do not re-run closures -/
 @[noinline] def freeze (W : World) : World :=
   let names := ((List.range W.nsym).map W.name).toArray
   let deps := ((List.range W.nsym).map W.deps).toArray
-  { W with name := fun i => names.getD i 0, deps := fun i => deps.getD i [] }
+  let ifs := ((List.range W.nsym).map W.iface).toArray
+  let frs := ((List.range W.nsym).map W.freshIface).toArray
+  let acc := ((List.range W.nif).map W.access).toArray
+  { W with name := fun i => names.getD i 0, deps := fun i => deps.getD i [],
+           iface := fun i => ifs.getD i 0, freshIface := fun i => frs.getD i false,
+           access := fun i => acc.getD i 0 }
 
 def handle (s : Sexp) : String :=
   match s.items with
-  | [mode, hdr, syms, trees, r, edits] =>
+  | [mode, hdr, syms, acc, trees, r, edits] =>
     let fx := match mode with
       | .atom "fixed" => true
       | .atom "pinned" => false
       | _ => deployed
-    let W := mkWorld hdr syms trees
+    let W := mkWorld hdr syms acc trees
     let root := r.nat?.getD 0
     let W1 := freeze (copy fx W root)
     let C := copyTree fx W root
